@@ -1,9 +1,11 @@
 #!/bin/sh
 # Primes the Go build cache for the harness (offline). Safe to re-run.
 export GOFLAGS=-mod=mod GOPROXY=off GOSUMDB=off GOTOOLCHAIN=local
-cd "$(dirname "$0")/harness" || exit 1
+HERE="$(cd "$(dirname "$0")" && pwd)"
+cd "$HERE/harness" || exit 1
 go build ./... >/dev/null 2>&1
 for p in c*/; do go test -c -vet=off -tags verif -o /dev/null ./$p >/dev/null 2>&1; done
+# packages the launcher builds with -race
+for p in c05; do [ -d "$p" ] && go test -c -race -vet=off -tags verif -o /dev/null ./$p >/dev/null 2>&1; done
 (cd /repo && GOFLAGS=-mod=readonly go build -tags verif -o /dev/null . >/dev/null 2>&1; GOFLAGS=-mod=readonly go build -race -tags verif -o /dev/null . >/dev/null 2>&1)
-(cd "$(dirname "$0")/harness" && go test -c -race -vet=off -tags verif -o /dev/null ./c05 >/dev/null 2>&1)
 exit 0
